@@ -24,6 +24,7 @@ from typing import (
     overload,
 )
 
+from .constants import SYSTEM_FLAGS
 from .fetch import STR_TO_FETCH_OP, FetchAtt, FetchOp
 from .search import IMAPSearch
 
@@ -1983,6 +1984,13 @@ class IMAPClientCommand:
         #
         flag += self._p_re(_atom_re)
 
+        # The names of the system flags are case-insensitive: `\seen` and
+        # `\SEEN` are `\Seen`. The rest of the server knows them in one
+        # spelling only.
+        #
+        for system_flag in SYSTEM_FLAGS:
+            if flag.lower() == system_flag.lower():
+                return system_flag
         return flag
 
     #######################################################################
